@@ -1,6 +1,7 @@
 (* C11: NewParagraphReader / decodeClearsig glue (after repair #31) *)
 From Coq Require Import List Ascii String Bool Arith Lia.
 Require Import GS.
+Require ARM.
 Import ListNotations.
 
 Section Clearsign.
@@ -16,6 +17,8 @@ Section Clearsign.
   Record reader := { r_text : str; r_signer : option entity }.
   Inductive res := ROk (r : reader) | RErr.
 
+  (* what clearsign.Decode consumed: the input without the rest it hands back *)
+  Definition consumed (input rest : str) : str := firstn (List.length input - List.length rest) input.
   Definition new_reader (kr : option keyring) (input : str) : res :=
     if negb (starts_pgp input) then
       match kr with
@@ -25,26 +28,35 @@ Section Clearsign.
     else
       match cs_decode input with
       | None => RErr
-      | Some (body, sg, _) =>
+      | Some (body, sg, rest) =>
           match kr with
           | None => ROk {| r_text := body; r_signer := None |}
-          | Some k => match pgp_verify k body sg with
-                      | None => RErr
-                      | Some e => ROk {| r_text := body; r_signer := Some e |}
-                      end
+          | Some k =>
+              (* 5d22f1c: a malformed checksum line in the signature armor (ARM.armor_ok on what clearsign.Decode
+                 consumed) is damage - the armor reader would skip the line and compare no checksum *)
+              if negb (ARM.armor_ok (consumed input rest)) then RErr else
+              match pgp_verify k body sg with
+              | None => RErr
+              | Some e => ROk {| r_text := body; r_signer := Some e |}
+              end
           end
       end.
   Definition paragraphs (r : reader) := read_all (r_text r).
 
   Theorem C11_sound k input r : new_reader (Some k) input = ROk r ->
     exists body sg rest e, cs_decode input = Some (body, sg, rest) /\ pgp_verify k body sg = Some e /\
-      r_signer r = Some e /\ paragraphs r = read_all body.
+      r_signer r = Some e /\ paragraphs r = read_all body /\ ARM.armor_ok (consumed input rest) = true.
   Proof.
     unfold new_reader. destruct (starts_pgp input); cbn [negb]; [|discriminate].
     destruct (cs_decode input) as [[[body sg] rest]|] eqn:D; [|discriminate].
+    destruct (ARM.armor_ok (consumed input rest)) eqn:A; cbn [negb]; [|discriminate].
     destruct (pgp_verify k body sg) as [e|] eqn:V; [|discriminate].
     intros E. inversion E; subst. exists body, sg, rest, e. auto.
   Qed.
+  (* a malformed checksum line in the signature armor makes reading fail, whatever the signature check would say *)
+  Theorem C11_malformed_checksum k input body sg rest : starts_pgp input = true -> cs_decode input = Some (body, sg, rest) ->
+    ARM.armor_ok (consumed input rest) = false -> new_reader (Some k) input = RErr.
+  Proof. unfold new_reader. intros -> -> ->. reflexivity. Qed.
 
   Theorem C11_fail k input :
     (starts_pgp input = false \/ cs_decode input = None \/
@@ -55,7 +67,7 @@ Section Clearsign.
     - now rewrite H.
     - destruct (starts_pgp input); cbn [negb]; [now rewrite H|reflexivity].
     - destruct (starts_pgp input); cbn [negb]; [|reflexivity].
-      destruct (cs_decode input) as [[[b g] t]|] eqn:D; [|reflexivity]. now rewrite (H b g t eq_refl).
+      destruct (cs_decode input) as [[[b g] t]|] eqn:D; [|reflexivity]. destruct (ARM.armor_ok _); cbn [negb]; [|reflexivity]. now rewrite (H b g t eq_refl).
   Qed.
 
   (* text outside the signed block never reaches the caller: the reader's text is the decoded body *)
@@ -64,7 +76,7 @@ Section Clearsign.
   Proof.
     unfold new_reader. intros ->. cbn [negb]. destruct (cs_decode input) as [[[body sg] rest]|]; [|discriminate].
     destruct kr as [k|].
-    - destruct (pgp_verify k body sg); [|discriminate]. intros E. inversion E. eauto.
+    - destruct (ARM.armor_ok _); cbn [negb]; [|discriminate]. destruct (pgp_verify k body sg); [|discriminate]. intros E. inversion E. eauto.
     - intros E. inversion E. eauto.
   Qed.
 
@@ -73,7 +85,7 @@ Section Clearsign.
   Proof.
     unfold new_reader. destruct (starts_pgp input); cbn [negb].
     - destruct (cs_decode input) as [[[body sg] rest]|]; [|discriminate]. destruct kr as [k|].
-      + destruct (pgp_verify k body sg) as [e'|] eqn:V; [|discriminate]. intros E S. inversion E; subst. cbn in S. inversion S; subst. eauto 8.
+      + destruct (ARM.armor_ok _); cbn [negb]; [|discriminate]. destruct (pgp_verify k body sg) as [e'|] eqn:V; [|discriminate]. intros E S. inversion E; subst. cbn in S. inversion S; subst. eauto 8.
       + intros E S. inversion E; subst. discriminate.
     - destruct kr; [discriminate|]. intros E S. inversion E; subst. discriminate.
   Qed.
